@@ -100,7 +100,10 @@ Inductive sop :=
 | OCopyFrom (esz blen : N)         (* VolatileSlice::copy_from  :637-663 *)
 | OReadFrom (cnt addr srclen : N)  (* read_volatile_from, source &[u8]   :736-745, io.rs:236-247 *)
 | OReadExactFrom (cnt addr srclen : N)   (* read_exact_volatile_from, source &[u8]  :746-751, io.rs:248-260 *)
-| OReadFromFd (cnt addr avail : N) (fderr : bool)  (* source File: one read(2) delivering min(avail,..) or failing  io.rs:143-163 *)
+| OReadFromFd (cnt addr avail : N) (fderr : bool)  (* source File: one read(2) delivering min(avail,..) or failing  io.rs:177-201 *)
+| OReadFromFdFault (cnt addr fault : N)  (* source: a datagram of cnt bytes; read(2) FAILS PART-WAY: the kernel stores the
+                                            bytes in front of region offset [fault] (host pages from there on are
+                                            inaccessible), then returns EFAULT        io.rs:189-195 *)
 (* reads through a slice accessor: mark nothing *)
 | ORead (blen addr : N) | OReadSlice (blen addr : N) | OLoad (sz addr : N)
 | OCopyTo (esz blen : N) | OWriteTo (cnt addr : N) | OWriteAllTo (cnt addr : N)
@@ -154,11 +157,27 @@ Definition run_sop (ri : nat) (hostmod : N) (a : acc) (o : sop) : outcome1 :=
       | None => fail
       | Some l => let m := N.min l cnt in
                   if fderr then
-                    (* bytes_read < 0: mark the whole target, nothing written   io.rs:154-156 *)
+                    (* bytes_read < 0 (EBADF): mark the whole target, nothing written   io.rs:191-195 *)
                     {| o_ok := false; o_count := 0;
                        o_effs := [{| e_r := ri; e_woff := a_off a + addr; e_wn := 0;
                                      e_moff := bm_at (a_bm a) addr; e_mlen := m |}] |}
                   else let n := N.min m avail in done n [weff ri a addr n]
+      end
+  | KSlice, OReadFromFdFault cnt addr fault =>
+      (* read_volatile_from(addr, fd, cnt): offset(addr), subslice(0, min(len, cnt)), one read(2) of m bytes into
+         region bytes [t0, t0+m).  The descriptor holds one datagram of cnt >= m bytes.  If the target ends before
+         the inaccessible part (or is empty: a zero-length read returns 0) the read succeeds with m bytes.
+         Otherwise the kernel has stored the fault - t0 bytes in front of the fault when it gives up with EFAULT
+         (net/core/datagram.c skb_copy_datagram_iter: short copy -> -EFAULT; checked on the running kernel by the
+         correspondence runs): bytes_read < 0, so mark_dirty(0, buf.len()) marks the WHOLE target   io.rs:191-195 *)
+      match checked_sub (a_len a) addr with
+      | None => fail
+      | Some l => let m := N.min l cnt in
+                  let t0 := a_off a + addr in
+                  if (m =? 0) || (t0 + m <=? fault) then done m [weff ri a addr m]
+                  else {| o_ok := false; o_count := 0;
+                          o_effs := [{| e_r := ri; e_woff := t0; e_wn := fault - t0;
+                                        e_moff := bm_at (a_bm a) addr; e_mlen := m |}] |}
       end
   | KSlice, ORead blen addr =>
       if blen =? 0 then done 0 [] else if a_len a <=? addr then fail
